@@ -63,6 +63,52 @@ PRESERVE = {"negative", "positive", "sqrt", "square", "exp", "exp2", "expm1", "l
 BOOL = {"lt", "le", "gt", "ge", "eq", "ne", "logical_and", "logical_or", "logical_xor", "logical_not", "is_finite", "is_inf", "is_nan"}
 
 
+_MAKE_COMPLEX = {}
+
+
+def make_complex_dtype(dr, di):
+    """dtype that utils.make_complex (the helper behind the NumPy template of `complex`) returns for part dtypes (dr, di), read
+    off its source: the first branch of its if-chain whose test - comparisons of `<part>.dtype` with numpy float types - holds,
+    and the complex type its result is viewed as.  No branch: the helper raises (NoDtype)."""
+    f = _MAKE_COMPLEX.get("func")
+    if f is None:
+        raise NoDtype("utils.make_complex not loaded")
+    pr, pi = f.args.args[0].arg, f.args.args[1].arg
+    env = {f"{pr}.dtype": dr, f"{pi}.dtype": di}
+
+    def truth(t):
+        if isinstance(t, ast.BoolOp):
+            vals = [truth(x) for x in t.values]
+            return all(vals) if isinstance(t.op, ast.And) else any(vals)
+        if isinstance(t, ast.Compare) and len(t.ops) == 1 and isinstance(t.ops[0], (ast.Eq, ast.NotEq)):
+            l, r_ = dotted(t.left), dotted(t.comparators[0])
+            if l in env and r_ and r_.startswith("numpy."):
+                return (env[l] == r_.split(".")[-1]) == isinstance(t.ops[0], ast.Eq)
+            if r_ in env and l and l.startswith("numpy."):
+                return (env[r_] == l.split(".")[-1]) == isinstance(t.ops[0], ast.Eq)
+        raise AnalysisError(f"utils.make_complex: test `{norm_src(t)}` not understood")
+
+    def walk(stmts):
+        for st in stmts:
+            if isinstance(st, ast.If):
+                got = walk(st.body if truth(st.test) else st.orelse)
+                if got is not None:
+                    return got
+            elif isinstance(st, ast.Return):
+                views = [c for c in ast.walk(st.value) if isinstance(c, ast.Call) and isinstance(c.func, ast.Attribute) and c.func.attr == "view" and c.args]
+                if len(views) != 1:
+                    raise AnalysisError(f"utils.make_complex: `{norm_src(st.value)}` is not a view as a complex type")
+                return (dotted(views[0].args[0]) or "").split(".")[-1]
+            elif isinstance(st, ast.Raise):
+                return "raise"
+        return None
+
+    got = walk(f.body)
+    if got in (None, "raise"):
+        raise NoDtype("make_complex raises for these operands")
+    return got
+
+
 def np_dtype(sem, dts):
     """dtype of the value the NumPy template computes; dts: operand dtypes."""
     if sem[0] == "arg":
@@ -87,9 +133,7 @@ def np_dtype(sem, dts):
     if k == "select":
         return promote(a[1], a[2])
     if k == "complex":
-        if a[0] == a[1] and a[0] in ("float32", "float64"):
-            return f"complex{2 * bits(a[0])}"
-        raise NoDtype("make_complex raises for these operands")
+        return make_complex_dtype(a[0], a[1])
     raise NoDtype(f"kind {k}")
 
 
@@ -121,6 +165,7 @@ def run(repo, tier):
     r.trusted_base = ["Python ast", "sa/absint.py", "NumPy promotion oracle (rules/C08.py:promote, np_dtype)", "sa/oracles/targets.py"]
     r.assumptions = ["inputs are numpy scalars of the declared dtype (the target casts arguments)", "operands of an operation are typed symbols (sub-expressions compose by induction)"]
     r.rule("R8.1", "for each kind and operand dtype tuple: static type (Expr.get_type) == dtype computed by the NumPy template", floor=150)
+    _MAKE_COMPLEX["func"] = repo.func("utils.py", "make_complex")
     r.rule("R8.2", "every kind with a NumPy template has a static typing rule (get_type does not raise)", floor=40)
     r.rule("R8.3", "debug assertions compare the assigned variable with the static type of the same expression; the result with the body's type", floor=3)
     r.rule("R8.4", "constants are cast unconditionally to the static type of their like operand", floor=1)
